@@ -97,6 +97,57 @@ Theorem C11_inplace_agree : forall sa a b s, wf_fib sa a = true -> sortedP b ->
 Proof. exact inplace_agree. Qed.
 Print Assumptions C11_inplace_agree.
 
+(* round 2 — fibers as objects with a declared shape and an ACTIVE RANGE (any: the fields of a and c
+   are universally quantified), and two-step histories on one object: after  a += c  (m = false;
+   populate also copies c's active range into a) or  a *= c  (m = true)  the fiber a is still
+   well-formed for its declared shape, holds the elementwise sum / product, and then  a + s  adds
+   over the WHOLE shape (not over the active range),  a += s  agrees with  a + s  and  a *= s
+   with  a * s. *)
+Theorem C11_fiber_history : forall (m : bool) (a c : afib) (s : Z),
+  wf_afib a = true -> wf_afib c = true -> within (af_shape a) (af_elems c) = true ->
+  let a1 := hist_step (Some (m, c)) a in
+  wf_afib a1 = true
+  /\ af_shape a1 = af_shape a
+  /\ (forall x, getz x (af_elems a1)
+                = if m then getz x (af_elems a) * getz x (af_elems c)
+                  else getz x (af_elems a) + getz x (af_elems c))
+  /\ coordsP (af_elems (st_add_scalar a1 s)) = zrange (eff_shape (af_shape a) (af_elems a1))
+  /\ (forall x, getz x (af_elems (st_add_scalar a1 s))
+                = if (0 <=? x) && (x <? eff_shape (af_shape a) (af_elems a1))
+                  then s + getz x (af_elems a1) else 0)
+  /\ (forall x, getz x (af_elems (st_iadd_scalar a1 s)) = getz x (af_elems (st_add_scalar a1 s)))
+  /\ (forall x, getz x (af_elems (st_imul_scalar a1 s)) = getz x (af_elems (st_mul_scalar a1 s))).
+Proof. exact fiber_history. Qed.
+Print Assumptions C11_fiber_history.
+
+(* the model of the ten fiber forms never reads the active range (that it is a model of THIS code
+   is what the differential run on fibers with explicit / inherited active ranges checks) *)
+Theorem C11_active_range_not_read : forall sh act act' es (b : afib) (s : Z),
+  let a := Build_afib sh act es in
+  let a' := Build_afib sh act' es in
+  af_elems (st_add_scalar a s) = af_elems (st_add_scalar a' s)
+  /\ af_elems (st_mul_scalar a s) = af_elems (st_mul_scalar a' s)
+  /\ af_elems (st_iadd_scalar a s) = af_elems (st_iadd_scalar a' s)
+  /\ af_elems (st_imul_scalar a s) = af_elems (st_imul_scalar a' s)
+  /\ af_elems (st_add_fiber a b) = af_elems (st_add_fiber a' b)
+  /\ af_elems (st_mul_fiber a b) = af_elems (st_mul_fiber a' b)
+  /\ af_elems (st_iadd_fiber a b) = af_elems (st_iadd_fiber a' b)
+  /\ af_elems (st_imul_fiber a b) = af_elems (st_imul_fiber a' b)
+  /\ af_elems (st_add_fiber b a) = af_elems (st_add_fiber b a')
+  /\ af_elems (st_iadd_fiber b a) = af_elems (st_iadd_fiber b a').
+Proof. exact active_range_not_read. Qed.
+Print Assumptions C11_active_range_not_read.
+
+(* non-vacuity: a += c with a narrower c leaves a with active range (0, 2), shape 6; a + 2 covers 0..5 *)
+Example C11_history_nonvacuous :
+  let a := Build_afib (Some 6) None [(0, 1); (1, 2); (5, 3)] in
+  let c := Build_afib (Some 2) None [(0, 2); (1, 10)] in
+  c11_wf (CFibH (Some (false, c)) false false a (Build_afib None (Some (1, 3)) []) 2) = true
+  /\ get_active (hist_step (Some (false, c)) a) = (0, 2)
+  /\ af_elems (st_add_scalar (hist_step (Some (false, c)) a) 2)
+     = [(0, 5); (1, 14); (2, 2); (3, 2); (4, 2); (5, 5)].
+Proof. exact c11_hist_examples. Qed.
+
 (* the pinned Fiber.__imul__(fiber) (fiber.py:3286-3296, model fimul_pinned) violates the clause:
    elements of a outside the intersection keep their value.  Witness a = {0:1, 2:2}, b = {2:10}. *)
 Theorem C11_fiber_imul_pinned_refuted :
